@@ -282,6 +282,24 @@ func cmdReplay(args []string) int {
 	out, failed := runReplayTest(rf.ReplayPkg, rf.ReplayTest)
 	fmt.Println(out)
 	fmt.Println("recorded verdict:", rf.ReplayNote)
+	// conformance replays carry their own comparison: re-evaluated on the tree as it is now
+	for _, ln := range strings.Split(out, "\n") {
+		if strings.HasPrefix(ln, "HV-REPLAY ") && strings.Contains(ln, "\"sends_agree\"") {
+			var o struct {
+				Panic       string `json:"panic"`
+				SendsAgree  bool   `json:"sends_agree"`
+				WritesAgree bool   `json:"writes_agree"`
+			}
+			if json.Unmarshal([]byte(ln[len("HV-REPLAY "):]), &o) == nil {
+				if o.Panic == "" && o.SendsAgree && o.WritesAgree {
+					fmt.Println("REPLAYED: on the current tree the real code performs the counterexample's run (same sends, same writes)")
+					return 1
+				}
+				fmt.Println("not reproduced on the current tree: the real run differs from the counterexample's prediction")
+				return 0
+			}
+		}
+	}
 	if failed || rf.Replayed {
 		fmt.Println("REPLAYED: the real code violates the clause on this input")
 		return 1
